@@ -11,6 +11,7 @@ mod util;
 
 mod barops;
 mod c01;
+mod c05;
 mod c06;
 mod c07;
 mod c16;
@@ -67,6 +68,7 @@ fn checks() -> Vec<Check> {
         Check { id: "C02", run: mp::c02_run, meta: mp::c02_meta, replay: mp::c02_replay },
         Check { id: "C03", run: mp::c03_run, meta: mp::c03_meta, replay: mp::c03_replay },
         Check { id: "C04", run: mp::c04_run, meta: mp::c04_meta, replay: mp::c04_replay },
+        Check { id: "C05", run: c05::run, meta: c05::meta, replay: c05::replay },
         Check { id: "C06", run: c06::run, meta: c06::meta, replay: c06::replay },
         Check { id: "C07", run: c07::run, meta: c07::meta, replay: c07::replay },
         Check { id: "C10", run: c10::run, meta: c10::meta, replay: c10::replay },
